@@ -5,6 +5,7 @@ use std::io::{self, BufRead, Write};
 mod util;
 mod c10;
 mod c12;
+mod c11;
 
 fn main() {
     let mode = std::env::args().nth(1).unwrap_or_default();
@@ -42,6 +43,7 @@ fn dispatch(mode: &str, line: &str) -> String {
     match mode {
         "c10" => c10::run(line),
         "c12" => c12::run(line),
+        "c11" => c11::run(line),
         _ => format!("bad-mode {mode}"),
     }
 }
